@@ -446,6 +446,23 @@ def rule_topo(ctx):
         # adds must sit in the same block (same path)
         for c in adds:
             pass
+    # ... for every input that is a unit, whatever its kind: the only test between the loop and the edge is `isinstance(input, UGen)`
+    # and nothing skips an iteration (a control created in the middle of the graph by SynthDef.wrap must be waited for like any unit)
+    for l in loops:
+        if norm(l.iter) != 'self.inputs':
+            continue
+        skips = [norm(x) for x in ast.walk(l) if isinstance(x, (ast.Continue, ast.Break, ast.Return))]
+        tests = set()
+        for c in U.calls(l):
+            if U.method_name(c) == 'add' and norm(c.func.value) == 'self._antecedents':
+                for p_ in U.parent_chain(c):
+                    if p_ is l:
+                        break
+                    if isinstance(p_, ast.If):
+                        tests.add(norm(p_.test))
+        ctx.ob('C02.topo', f'{mod.name}:SynthObject._init_topo_sort:every-unit-input', not skips and tests <= {'isinstance(input, UGen)'},
+               f'an input edge is installed only under {sorted(tests)} and the loop contains {skips}: some unit inputs get no edge, their '
+               f'readers can be emitted before them (forward wire)', l, mod)
     src = full(f.node)
     ctx.ob('C02.topo', f'{mod.name}:SynthObject._init_topo_sort:proxy',
            'if isinstance(input, OutputProxy): ugen = input.source_ugen else: ugen = input' in src,
@@ -771,6 +788,9 @@ def run(ctx):
 
 
 MUTANTS = [
+    dict(rule='C02.topo', name='control units get no ordering edge (seed C02-h)', file='sc3/synth/ugen.py',
+         old="                    ugen = input\n                self._antecedents.add(ugen)",
+         new="                    ugen = input\n                if type(ugen).__name__.endswith('Control'):\n                    continue\n                self._antecedents.add(ugen)"),
     dict(rule='C02.valid', name='central foreign-unit refusal dropped (fix reverted)', file='sc3/synth/synthdef.py',
          old="                    if isinstance(input, ugn.SynthObject)\\\n                    and input._synthdef is not self:\n", new="                    if False:\n"),
     dict(rule='C02.valid', name='foreign units accepted as inputs (fix reverted)', file='sc3/synth/ugen.py',
